@@ -299,7 +299,13 @@ func (w *World) enabled() []Action {
 	return acts
 }
 
+// advance lets d of fake time pass. Without delay faults the advance ends early when a request reaches
+// the node (otherwise a timer firing inside a long advance would have its requests wait for the rest of it).
 func (w *World) advance(d time.Duration) {
+	if !w.cfg.DelayFaults {
+		w.advanceUntilEvent(d)
+		return
+	}
 	time.Sleep(d + 500*time.Microsecond)
 }
 
